@@ -31,7 +31,7 @@ type link struct {
 
 // linkTable builds the 10 candidate links (one per node pair); variant selects
 // geometry (straight / detour) and speed (1 / 4) per pair.
-func linkTable(variant int) []link {
+func linkTable(variant int, speeds [2]float64) []link {
 	var t []link
 	k := 0
 	for a := 0; a < len(nodePos); a++ {
@@ -50,9 +50,9 @@ func linkTable(variant int) []link {
 					g[i], g[j] = g[j], g[i]
 				}
 			}
-			speed := 1.0
+			speed := speeds[0]
 			if v&2 == 2 {
-				speed = 4
+				speed = speeds[1]
 			}
 			l := 0.0
 			for i := 0; i+1 < len(g); i++ {
@@ -255,15 +255,21 @@ func main() {
 		return
 	}
 	rep = report.New("C19", tier, "model_checking")
-	rep.Rule = "E2: breadth-first search over all AddLink histories (each of the 10 candidate links between 5 irregularly placed nodes at most once; straight / detour geometry, stored direction and speed 1 / 4 fixed per link by a table; 1 (3) tables) to depth 5 (7), deduplicated by (link set, node-id assignment); successor = replay on a fresh Network; in every distinct state, for both MinimizeOptions, all 49 ordered pairs of query points from {5 node positions, 2 off-network points} (pairs with a non-unique nearest node skipped); E3: in states with <= 3 links every query is additionally explored over all map-iteration orders of the instrumented route package with at most 1 deviation. Oracle: Floyd-Warshall minimum cost, chain validity, totals, emptiness. Non-trivial = states in which some node pair has at least two distinct routes."
-	depth, tables := 5, 1
+	rep.Rule = "E2: breadth-first search over all AddLink histories (each of the 10 candidate links between 5 irregularly placed nodes at most once; straight / detour geometry, stored direction and speed fixed per link by a table; tables with speeds {1,4} and uniform 0.1 (thorough: three {1,4} tables, uniform 0.1, {0.25,0.5}, uniform 25)) to depth 5 (7), deduplicated by (link set, node-id assignment); successor = replay on a fresh Network; in every distinct state, for both MinimizeOptions, all 49 ordered pairs of query points from {5 node positions, 2 off-network points} (pairs with a non-unique nearest node skipped); E3: in states with <= 3 links every query is additionally explored over all map-iteration orders of the instrumented route package with at most 1 deviation. Oracle: Floyd-Warshall minimum cost, chain validity, totals, emptiness. Non-trivial = states in which some node pair has at least two distinct routes."
+	type tabSpec struct {
+		variant int
+		speeds  [2]float64
+	}
+	// (uniform and sub-unit speeds: the time heuristic and the link weight must
+	// stay in the same unit whatever the speeds are)
+	depth, tables := 5, []tabSpec{{0, [2]float64{1, 4}}, {1, [2]float64{0.1, 0.1}}}
 	if tier == "thorough" {
-		depth, tables = 7, 3
+		depth, tables = 7, []tabSpec{{0, [2]float64{1, 4}}, {1, [2]float64{1, 4}}, {2, [2]float64{1, 4}}, {1, [2]float64{0.1, 0.1}}, {0, [2]float64{0.25, 0.5}}, {2, [2]float64{25, 25}}}
 	}
 	var states, trans, queriesRun, envExecs, nontrivial, skipped int64
 	var mu sync.Mutex
-	for tv := 0; tv < tables; tv++ {
-		tab := linkTable(tv)
+	for _, ts := range tables {
+		tab := linkTable(ts.variant, ts.speeds)
 		seen := map[string]bool{}
 		frontier := [][]int{{}}
 		for d := 1; d <= depth && !rep.Expired(); d++ {
